@@ -235,6 +235,32 @@ func (rs *bodyStream) Read(p []byte) (int, error) {
 	return n, err
 }
 
+// skipWait discards n bytes of r, waiting for those that have not arrived yet
+// (Skip alone fails on a connection that has buffered fewer than n bytes).
+func skipWait(r network.Reader, n int) error {
+	for n > 0 {
+		skip := r.Len()
+		if skip == 0 {
+			if _, err := r.Peek(1); err != nil {
+				return err
+			}
+			skip = r.Len()
+		}
+		if skip > n {
+			skip = n
+		}
+		if err := r.Skip(skip); err != nil {
+			return err
+		}
+		// After Skip, the buffer needs to be released to prevent OOM if there are too much data on conn.
+		if err := r.Release(); err != nil {
+			return err
+		}
+		n -= skip
+	}
+	return nil
+}
+
 func (rs *bodyStream) skipRest() error {
 	// The body length doesn't exceed the maxContentLengthInStream or
 	// the bodyStream has been skip rest
@@ -252,7 +278,7 @@ func (rs *bodyStream) skipRest() error {
 		// the handler may have stopped in the middle of a chunk:
 		// drop the rest of it before looking for the next chunk size
 		if rs.chunkLeft > 0 {
-			if err := rs.reader.Skip(rs.chunkLeft); err != nil {
+			if err := skipWait(rs.reader, rs.chunkLeft); err != nil {
 				return err
 			}
 			rs.chunkLeft = 0
@@ -271,7 +297,7 @@ func (rs *bodyStream) skipRest() error {
 				return SkipTrailer(rs.reader)
 			}
 
-			err = rs.reader.Skip(chunkSize)
+			err = skipWait(rs.reader, chunkSize)
 			if err != nil {
 				return err
 			}
